@@ -8,6 +8,7 @@ import (
 	"errors"
 	"fmt"
 	"math"
+	"reflect"
 	"sync"
 
 	"github.com/graphql-go/graphql"
@@ -400,7 +401,7 @@ func (b *Built) resolver(defType string, fd *model.FieldDef) graphql.FieldResolv
 			// one located error value returned for every failing field and every request (a sentinel)
 			return nil, sharedSentinel
 		case "valerr":
-			return materialize(r.Val), errors.New(r.ErrMsg)
+			return typedList(materialize(r.Val), sess.W), errors.New(r.ErrMsg)
 		case "panic_err":
 			panic(errors.New(r.ErrMsg))
 		case "panic_shared":
@@ -420,12 +421,50 @@ func (b *Built) resolver(defType string, fd *model.FieldDef) graphql.FieldResolv
 				case "thunk_nil":
 					return nil, nil
 				}
-				return materialize(r.Val), nil
+				return typedList(materialize(r.Val), sess.W), nil
 			}, nil
 		}
-		return materialize(r.Val), nil
+		return typedList(materialize(r.Val), sess.W), nil
 	}
 }
+
+// typedList hands a list whose elements all have the same Go type over as a slice of that type ([]int, []string,
+// []*ref.Tok, [][]int ...) when the world asks for it: resolvers return typed slices more often than []interface{}.
+func typedList(v interface{}, w *ref.World) interface{} {
+	if w == nil || !w.TypedLists {
+		return v
+	}
+	l, ok := v.([]interface{})
+	if !ok || len(l) == 0 {
+		return v
+	}
+	elems := make([]interface{}, len(l))
+	for i, e := range l {
+		elems[i] = typedList(e, w)
+	}
+	var et reflect.Type
+	for i, e := range elems {
+		if e == nil {
+			return sliceOfIface(elems)
+		}
+		t := reflect.TypeOf(e)
+		if i > 0 && t != et {
+			return sliceOfIface(elems)
+		}
+		et = t
+	}
+	switch et.Kind() {
+	case reflect.Func, reflect.Struct, reflect.Map:
+		return sliceOfIface(elems) // deferred values and hostile leaves stay as they are
+	}
+	out := reflect.MakeSlice(reflect.SliceOf(et), len(elems), len(elems))
+	for i, e := range elems {
+		out.Index(i).Set(reflect.ValueOf(e))
+	}
+	return out.Interface()
+}
+
+func sliceOfIface(x []interface{}) interface{} { return x }
 
 // materialize turns the deferred list elements of a World value into real deferred values.
 func materialize(v interface{}) interface{} {
